@@ -145,18 +145,21 @@ size_t mbsnrtowcs(wchar_t *dst, const char **src_p, size_t srclen, size_t dstlen
 			s += clen;
 		} else if (clen < 0) {
 			/* invalid encoding */
-			*src_p = s;
+			if (dst)
+				*src_p = s;
 			return (size_t)(-1);
 		} else {
 			/* end of string */
-			if (w)
+			if (w) {
 				*w = 0;
-			*src_p = NULL;
+				*src_p = NULL;
+			}
 			return count;
 		}
 	}
 	/* end due to srclen */
-	*src_p = s;
+	if (dst)
+		*src_p = s;
 	return count;
 }
 
